@@ -32,3 +32,5 @@ pub mod c04;
 pub mod c16;
 #[cfg(feature = "c06")]
 pub mod c06;
+#[cfg(feature = "c01")]
+pub mod c01;
